@@ -1014,6 +1014,16 @@ class ColangParser:
         # if self.main_token == "else when":
         #     branches.pop()
 
+        # A `when` (as opposed to an `else when`) starts a new statement: it must not be
+        # merged with the `when` block right before it, so we separate them with a no-op.
+        parent_elements = self.branches[-1]["elements"]
+        if (
+            self.main_token == "when"
+            and parent_elements
+            and isinstance(parent_elements[-1], list)
+        ):
+            parent_elements.append({"pass": True})
+
         # Add the array of elements directly into the parent branch
         self.branches[-1]["elements"].append(new_branch["elements"])
 
